@@ -13,7 +13,7 @@
    The state of the loop is the fold of [recv] over that list ([consume]); once every member has
    returned the call has returned [trace_ret] of it. *)
 From SC Require Import Base.Prelude Group.Exec Group.C17Judge Group.ExecLemmas Group.ExecProofs
-  Group.ExecAwareProofs Group.ExecPc Group.ExecPcProofs Group.C17PJudge.
+  Group.ExecAwareProofs Group.ExecPc Group.ExecPcProofs Group.C17PJudge Group.ExecPcOneProofs.
 From Coq Require Import Permutation Arith.
 
 Local Open Scope nat_scope.
@@ -1031,4 +1031,1274 @@ Proof.
   - inversion L; subst. reflexivity.
   - inversion L; subst. reflexivity.
   - inversion L; subst. reflexivity.
+Qed.
+
+(* ================= Part 3: who saw the cancellation (x_saw) ================= *)
+Definition SW (w : world) (j : nat) : Z := nth j (w_saw w) (-1)%Z.
+
+Lemma flush_one_SW : forall s ms w h j, h < List.length (w_saw w) ->
+  SW (flush_one s ms w h) j =
+  if Nat.eqb j h && (lv w h && aware_at ms h) then Z.of_nat s else SW w j.
+Proof.
+  intros s ms w h j H. unfold flush_one, SW. fold (lv w h).
+  destruct (lv w h && aware_at ms h).
+  - rewrite deliver_saw. simpl w_saw. rewrite nth_set_nth.
+    apply Nat.ltb_lt in H. rewrite H, andb_true_r. reflexivity.
+  - rewrite andb_false_r. reflexivity.
+Qed.
+
+Lemma flush_fold_SW : forall s ms l w, NoDup l -> (forall h, In h l -> h < List.length (w_saw w)) ->
+  forall j, SW (fold_left (flush_one s ms) l w) j =
+            if inb j l && (lv w j && aware_at ms j) then Z.of_nat s else SW w j.
+Proof.
+  intros s ms l. induction l as [|h t IH]; intros w ND LT j; simpl; auto.
+  inversion ND as [|? ? NI ND']; subst.
+  rewrite IH; auto.
+  - rewrite flush_one_SW by (apply LT; left; auto). rewrite flush_one_lv.
+    unfold inb. simpl existsb. fold (inb j t).
+    destruct (Nat.eqb_spec j h) as [->|N]; simpl.
+    + assert (F : inb h t = false) by (apply inb_false; auto). rewrite F. simpl. reflexivity.
+    + reflexivity.
+  - intros x Hx. rewrite flush_one_saw_length. apply LT. right; auto.
+Qed.
+
+Lemma flush_SW : forall s ms w j, List.length (w_saw w) = List.length ms ->
+  SW (flush s ms w) j = if lv w j && aware_at ms j then Z.of_nat s else SW w j.
+Proof.
+  intros s ms w j LN. unfold flush. rewrite flush_fold_SW.
+  - destruct (inb j (seq 0 (List.length ms))) eqn:I; auto.
+    apply inb_false in I. rewrite in_seq in I. rewrite aware_at_overflow by lia.
+    rewrite andb_false_r. reflexivity.
+  - apply seq_NoDup.
+  - intros h Hh. apply in_seq in Hh. lia.
+Qed.
+
+Lemma flush_NA_id : forall s ms w, NA ms w -> flush s ms w = w.
+Proof.
+  intros s ms w N. unfold flush. generalize (seq 0 (List.length ms)) as l.
+  induction l as [|h t IH]; simpl; auto.
+  assert (E : flush_one s ms w h = w).
+  { unfold flush_one. fold (lv w h). destruct (lv w h) eqn:L; auto. rewrite (N h L). reflexivity. }
+  rewrite E. exact IH.
+Qed.
+
+(* saw and the cancellation step only change at the cancelling event *)
+Lemma release_quiet_saw : forall ms w s i c, P1 w c -> lv w i = true -> sig c (own_resp ms i) = false ->
+  w_saw (release ms w s i) = w_saw w.
+Proof.
+  intros ms w s i c P L SG. destruct (P1_live w c i P L) as [E [K D]].
+  rewrite release_live by auto. cbv zeta.
+  set (d := deliver s (member_returns i w) (own_resp ms i)).
+  assert (K1 : w_cancel (fst d) = None) by (unfold d; rewrite deliver_cancel; exact K).
+  assert (S1 : snd d = false).
+  { unfold d. rewrite deliver_sig by (simpl; rewrite E; exact D). simpl w_cons. rewrite E. exact SG. }
+  rewrite K1, S1, settle_saw. unfold d. rewrite deliver_saw. reflexivity.
+Qed.
+
+Lemma phase1_saw : forall ms A w s c, P1 w c -> NoDup A -> (forall i, In i A -> lv w i = true) ->
+  quiet c (map (own_resp ms) A) = true ->
+  w_saw (run_w ms w s (map ERel A)) = w_saw w.
+Proof.
+  intros ms A. induction A as [|i t IH]; intros w s c P ND LV Q; simpl; auto.
+  inversion ND as [|? ? NI ND']; subst. simpl in Q. apply andb_prop in Q as [Q1 Q2].
+  apply negb_true_iff in Q1.
+  assert (L : lv w i = true) by (apply LV; left; auto).
+  destruct (release_quiet ms w s i c P L Q1) as [P' L'].
+  rewrite (IH (release ms w s i) (S s) _ P' ND'); auto.
+  - eapply release_quiet_saw; eauto.
+  - intros a Ha. rewrite L', (LV a) by (right; auto).
+    destruct (Nat.eqb_spec a i); [subst; tauto|reflexivity].
+Qed.
+
+Lemma release_NA_saw : forall ms w s i, NA ms w -> w_saw (release ms w s i) = w_saw w.
+Proof.
+  intros ms w s i N. destruct (lv w i) eqn:L; [|rewrite release_dead; auto].
+  rewrite release_live by auto. cbv zeta.
+  set (d := deliver s (member_returns i w) (own_resp ms i)).
+  assert (N1 : NA ms (set_cancel s (fst d))).
+  { intros j Hj. rewrite set_cancel_lv in Hj. unfold d in Hj. rewrite mr_lv in Hj.
+    apply andb_prop in Hj. apply N. tauto. }
+  rewrite settle_saw.
+  assert (DS : w_saw (fst d) = w_saw w) by (unfold d; rewrite deliver_saw; reflexivity).
+  destruct (w_cancel (fst d)); auto. destruct (snd d); auto. rewrite flush_NA_id; auto.
+Qed.
+
+Lemma pcancel_NA_saw : forall ms w s, NA ms w -> w_saw (pcancel ms w s) = w_saw w.
+Proof.
+  intros ms w s N. unfold pcancel. destruct (w_cancel w); auto.
+  rewrite settle_saw, flush_NA_id; auto.
+Qed.
+
+Lemma phase2_saw : forall ms B w s c, NA ms w -> Inv w c -> w_saw (run_w ms w s B) = w_saw w.
+Proof.
+  intros ms B. induction B as [|e t IH]; intros w s c N I; simpl; auto.
+  destruct e as [i|]; simpl.
+  - destruct (lv w i) eqn:L.
+    + destruct (release_NA ms w s i c L N I) as [I1 L1].
+      assert (N1 : NA ms (release ms w s i)).
+      { intros j Hj. rewrite L1 in Hj. apply andb_prop in Hj. apply N. tauto. }
+      rewrite (IH _ (S s) _ N1 I1). apply release_NA_saw. exact N.
+    + rewrite release_dead by auto. eapply IH; eauto.
+  - destruct (pcancel_NA ms w s c N I) as [I1 L1].
+    assert (N1 : NA ms (pcancel ms w s)) by (intros j Hj; rewrite L1 in Hj; auto).
+    rewrite (IH _ (S s) _ N1 I1). apply pcancel_NA_saw. exact N.
+Qed.
+
+(* ---- the three shapes of a guarded event list ---- *)
+Inductive gcase (c0 : rcv) (ms : list member) (pre : bool) (evs : list ev) : Prop :=
+| GPre : pre = true -> is_perm (rel_order evs) (List.length ms) -> q_of c0 ms pre evs = 0 -> gcase c0 ms pre evs
+| GPar (A : list nat) (B : list ev) :
+    pre = false -> evs = map ERel A ++ EPar :: B -> is_perm (A ++ rel_order B) (List.length ms) ->
+    quiet c0 (map (own_resp ms) A) = true -> q_of c0 ms pre evs = S (List.length A) -> gcase c0 ms pre evs
+| GOwn (A : list nat) (h : nat) (B : list ev) :
+    pre = false -> evs = map ERel A ++ ERel h :: B -> is_perm ((A ++ [h]) ++ rel_order B) (List.length ms) ->
+    quiet c0 (map (own_resp ms) A) = true ->
+    sig (consume c0 (map (own_resp ms) A)) (own_resp ms h) = true ->
+    q_of c0 ms pre evs = S (List.length A) -> gcase c0 ms pre evs.
+
+Lemma guard_cases : forall c0 ms (pre : bool) evs,
+  shape c0 (List.length ms) ->
+  perm_b (rel_order evs) (List.length ms) = true ->
+  npar evs + (if pre then 1 else 0) = 1 ->
+  gcase c0 ms pre evs.
+Proof.
+  intros c0 ms pre evs SH PB NP. apply perm_b_sound in PB.
+  pose proof (shape_not_done _ _ SH) as D.
+  destruct pre.
+  - apply GPre; auto. unfold q_of, tpar. apply nat_min_opt_0.
+  - assert (NP1 : npar evs = 1) by lia.
+    destruct (npar_one evs NP1) as [A0 [B0 [E N0]]]. subst evs.
+    rewrite rel_order_app, rel_order_map in PB. simpl rel_order in PB.
+    destruct (quiet c0 (map (own_resp ms) A0)) eqn:Q.
+    + apply (GPar c0 ms false _ A0 B0); auto.
+      assert (TP : tpar false (map ERel A0 ++ EPar :: B0) = S (List.length A0)).
+      { unfold tpar. rewrite tpar_from_app. reflexivity. }
+      unfold q_of. rewrite TP. apply r0_parent_first; auto.
+    + destruct (quiet_split ms A0 c0 D Q) as [A1 [h [A2 [EA [Q1 S1]]]]]. subst A0.
+      set (B := map ERel A2 ++ EPar :: B0).
+      assert (EV : map ERel (A1 ++ h :: A2) ++ EPar :: B0 = map ERel A1 ++ ERel h :: B).
+      { unfold B. rewrite map_app, <- app_assoc. reflexivity. }
+      assert (PB' : is_perm ((A1 ++ [h]) ++ rel_order B) (List.length ms)).
+      { unfold B. rewrite rel_order_app, rel_order_map. simpl rel_order.
+        rewrite <- !app_assoc in *. exact PB. }
+      apply (GOwn c0 ms false _ A1 h B); auto.
+      rewrite EV.
+      assert (TP : tpar false (map ERel A1 ++ ERel h :: B) = S (S (List.length A1)) + List.length A2).
+      { unfold tpar, B. rewrite tpar_from_app. simpl tpar_from. rewrite tpar_from_app. simpl. f_equal. }
+      unfold q_of. rewrite TP, (r0_own_first ms c0 A1 h B) by auto.
+      simpl. destruct (Nat.ltb_spec (S (List.length A1)) (S (S (List.length A1 + List.length A2)))); auto. lia.
+Qed.
+
+(* x_saw *)
+Lemma pcancel_P1_SW : forall ms w s c j, P1 w c -> List.length (w_saw w) = List.length ms ->
+  SW (pcancel ms w s) j = if lv w j && aware_at ms j then Z.of_nat s else SW w j.
+Proof.
+  intros ms w s c j [I [A|[K D]]] LN.
+  - rewrite A. simpl. unfold pcancel. destruct (w_cancel w); auto.
+    assert (N : NA ms (set_cancel s w)) by (intros x Hx; rewrite set_cancel_lv, A in Hx; discriminate).
+    unfold SW. rewrite settle_saw, flush_NA_id by auto. reflexivity.
+  - unfold pcancel. rewrite K. unfold SW at 1. rewrite settle_saw. fold (SW (flush s ms (set_cancel s w)) j).
+    rewrite flush_SW by exact LN. reflexivity.
+Qed.
+
+Lemma release_sig_SW : forall ms w s h c j, P1 w c -> lv w h = true -> sig c (own_resp ms h) = true ->
+  List.length (w_saw w) = List.length ms ->
+  SW (release ms w s h) j = if lv w j && negb (Nat.eqb j h) && aware_at ms j then Z.of_nat s else SW w j.
+Proof.
+  intros ms w s h c j P L SG LN. destruct (P1_live w c h P L) as [E [K D]].
+  rewrite release_live by auto. cbv zeta.
+  set (d := deliver s (member_returns h w) (own_resp ms h)).
+  assert (K1 : w_cancel (fst d) = None) by (unfold d; rewrite deliver_cancel; exact K).
+  assert (S1 : snd d = true).
+  { unfold d. rewrite deliver_sig by (simpl; rewrite E; exact D). simpl w_cons. rewrite E. exact SG. }
+  assert (DS : w_saw (fst d) = w_saw w) by (unfold d; rewrite deliver_saw; reflexivity).
+  rewrite K1, S1. unfold SW at 1. rewrite settle_saw. fold (SW (flush s ms (set_cancel s (fst d))) j).
+  rewrite flush_SW by (simpl; rewrite DS; exact LN).
+  rewrite set_cancel_lv. unfold d at 1. rewrite mr_lv. unfold SW. simpl w_saw. rewrite DS. reflexivity.
+Qed.
+
+Lemma start_saw : forall c ms, w_saw (start_w c ms false) = repeat (-1)%Z (List.length ms).
+Proof. intros. unfold start_w. cbv zeta. rewrite settle_saw. reflexivity. Qed.
+
+Lemma start_pre_SW : forall c ms j,
+  SW (start_w c ms true) j = if (j <? List.length ms) && aware_at ms j then 0%Z else (-1)%Z.
+Proof.
+  intros c ms j. unfold start_w. cbv zeta. unfold SW at 1. rewrite settle_saw.
+  fold (SW (flush 0 ms (set_cancel 0 (init_world c (List.length ms)))) j).
+  rewrite flush_SW by (simpl; apply repeat_length).
+  rewrite set_cancel_lv, init_lv. unfold SW. simpl w_saw. rewrite nth_repeat_same. reflexivity.
+Qed.
+
+Lemma saw_final : forall ms A X q (sw : list Z),
+  is_perm (A ++ rel_order X) (List.length ms) -> List.length A <= q ->
+  (forall i, In i (rel_order X) -> q < tpos (map ERel A ++ X) i) ->
+  List.length sw = List.length ms ->
+  (forall j, j < List.length ms ->
+     nth j sw (-1)%Z = if negb (inb j A) && aware_at ms j then Z.of_nat q else (-1)%Z) ->
+  sw = saw_at ms (map ERel A ++ X) q.
+Proof.
+  intros ms A X q sw P LE GT LN H.
+  apply (list_ext _ (-1)%Z).
+  - unfold saw_at, members. rewrite map_length, seq_length. exact LN.
+  - intros j Hj. rewrite LN in Hj. unfold saw_at, members. rewrite nth_map_seq by auto. rewrite H by auto.
+    unfold flushed. rewrite andb_comm.
+    replace (q <? tpos (map ERel A ++ X) j) with (negb (inb j A)); auto.
+    pose proof (perm_cover _ _ j P Hj) as C. rewrite inb_app in C.
+    destruct (inb j A) eqn:IA; simpl in *.
+    + apply inb_true in IA. symmetry. apply Nat.ltb_ge. unfold tpos. rewrite tpos_from_app_in by auto.
+      pose proof (pos_lt j A IA). lia.
+    + apply inb_true in C. symmetry. apply Nat.ltb_lt. auto.
+Qed.
+
+Lemma pcancel_saw_length : forall ms w s, List.length (w_saw (pcancel ms w s)) = List.length (w_saw w).
+Proof.
+  intros ms w s. unfold pcancel. destruct (w_cancel w); auto.
+  rewrite settle_saw, flush_saw_length. reflexivity.
+Qed.
+
+Theorem par_saw_closed_form : forall c0 ms (pre : bool) evs,
+  shape c0 (List.length ms) ->
+  perm_b (rel_order evs) (List.length ms) = true ->
+  npar evs + (if pre then 1 else 0) = 1 ->
+  w_saw (run_w ms (start_w c0 ms pre) 1 evs) = saw_at ms evs (q_of c0 ms pre evs).
+Proof.
+  intros c0 ms pre evs SH PB NP. pose proof (shape_not_done _ _ SH) as D.
+  destruct (guard_cases c0 ms pre evs SH PB NP) as [-> P Q0|A B -> -> P Q QE|A h B -> -> P Q SG QE].
+  - rewrite Q0. destruct (start_pre c0 ms) as [I0 L0].
+    assert (N0 : NA ms (start_w c0 ms true)).
+    { intros j Hj. rewrite L0 in Hj. apply andb_prop in Hj as [_ Hj]. apply negb_true_iff in Hj. exact Hj. }
+    rewrite (phase2_saw ms evs _ 1 _ N0 I0).
+    apply (saw_final ms [] evs 0); auto.
+    + intros i Hi. unfold tpos. simpl. pose proof (tpos_from_ge i evs 1 Hi). lia.
+    + unfold start_w. cbv zeta. rewrite settle_saw, flush_saw_length. simpl. apply repeat_length.
+    + intros j Hj. fold (SW (start_w c0 ms true) j). rewrite start_pre_SW.
+      apply Nat.ltb_lt in Hj. rewrite Hj. reflexivity.
+  - rewrite QE. pose proof (perm_nodup _ _ P) as ND.
+    destruct (start_P1 c0 ms D) as [P0 L0].
+    rewrite run_w_app. simpl run_w.
+    assert (LV0 : forall i, In i A -> lv (start_w c0 ms false) i = true).
+    { intros i Hi. rewrite L0. apply Nat.ltb_lt. eapply perm_lt; [exact P|apply in_or_app; auto]. }
+    assert (NDA : NoDup A) by (eapply nodup_app_l; exact ND).
+    destruct (phase1 ms A _ 1 c0 P0 NDA LV0 Q) as [P1' L1].
+    pose proof (phase1_saw ms A _ 1 c0 P0 NDA LV0 Q) as S1. rewrite start_saw in S1.
+    set (w1 := run_w ms (start_w c0 ms false) 1 (map ERel A)) in *.
+    destruct (pcancel_P1 ms w1 (1 + List.length (map ERel A)) _ P1') as [I2 L2].
+    assert (LN1 : List.length (w_saw w1) = List.length ms) by (rewrite S1; apply repeat_length).
+    set (w2 := pcancel ms w1 (1 + List.length (map ERel A))) in *.
+    assert (N2 : NA ms w2).
+    { intros j Hj. rewrite L2 in Hj. apply andb_prop in Hj as [_ Hj]. apply negb_true_iff in Hj. exact Hj. }
+    rewrite (phase2_saw ms B w2 _ _ N2 I2).
+    apply (saw_final ms A (EPar :: B) (S (List.length A))); auto.
+    + intros i Hi. pose proof (tpos_after_par ms A B i P Hi). lia.
+    + unfold w2. rewrite pcancel_saw_length. exact LN1.
+    + intros j Hj. fold (SW w2 j). unfold w2. rewrite (pcancel_P1_SW ms w1 _ _ j P1' LN1).
+      rewrite L1, L0. apply Nat.ltb_lt in Hj. rewrite Hj. simpl andb. rewrite map_length.
+      unfold SW. rewrite S1, nth_repeat_same. reflexivity.
+  - rewrite QE. pose proof (perm_nodup _ _ P) as ND.
+    destruct (start_P1 c0 ms D) as [P0 L0].
+    rewrite run_w_app. simpl run_w.
+    assert (NDA' : NoDup (A ++ [h])) by (eapply nodup_app_l; exact ND).
+    assert (NDA : NoDup A) by (eapply nodup_app_l; exact NDA').
+    assert (LV0 : forall i, In i A -> lv (start_w c0 ms false) i = true).
+    { intros i Hi. rewrite L0. apply Nat.ltb_lt. eapply perm_lt; [exact P|].
+      apply in_or_app; left; apply in_or_app; auto. }
+    destruct (phase1 ms A _ 1 c0 P0 NDA LV0 Q) as [P1' L1].
+    pose proof (phase1_saw ms A _ 1 c0 P0 NDA LV0 Q) as S1. rewrite start_saw in S1.
+    set (w1 := run_w ms (start_w c0 ms false) 1 (map ERel A)) in *.
+    assert (Lh : lv w1 h = true).
+    { rewrite L1, L0.
+      assert (h < List.length ms) by (eapply perm_lt; [exact P|]; apply in_or_app; left; apply in_or_app; right; left; auto).
+      apply Nat.ltb_lt in H. rewrite H. simpl.
+      apply negb_true_iff. apply inb_false. intros I.
+      eapply (nodup_app_disj A [h] h); eauto. left; auto. }
+    assert (LN1 : List.length (w_saw w1) = List.length ms) by (rewrite S1; apply repeat_length).
+    destruct (release_sig ms w1 (1 + List.length (map ERel A)) h _ P1' Lh SG) as [I2 L2].
+    set (w2 := release ms w1 (1 + List.length (map ERel A)) h) in *.
+    assert (N2 : NA ms w2).
+    { intros j Hj. rewrite L2 in Hj. apply andb_prop in Hj as [_ Hj]. apply negb_true_iff in Hj. exact Hj. }
+    rewrite (phase2_saw ms B w2 _ _ N2 I2).
+    rewrite <- events_snoc.
+    apply (saw_final ms (A ++ [h]) B (S (List.length A))); auto.
+    + rewrite app_length. simpl. lia.
+    + intros i Hi. pose proof (tpos_after_own (A ++ [h]) B i ND Hi).
+      rewrite app_length in H. simpl in H. lia.
+    + unfold w2. rewrite release_saw_length. exact LN1.
+    + intros j Hj. fold (SW w2 j). unfold w2. rewrite (release_sig_SW ms w1 _ h _ j P1' Lh SG LN1).
+      rewrite L1, L0. apply Nat.ltb_lt in Hj. rewrite Hj. simpl andb. rewrite map_length.
+      assert (INB : inb j (A ++ [h]) = inb j A || Nat.eqb j h).
+      { rewrite inb_app. f_equal. unfold inb. simpl. apply orb_false_r. }
+      rewrite INB, negb_orb.
+      unfold SW. rewrite S1, nth_repeat_same. reflexivity.
+Qed.
+
+(* ================= Part 4: when the call returns (x_retstep) and when the members' context is
+   cancelled (x_cancel) ================= *)
+Lemma consume_done_mono : forall l c, is_done c = true -> is_done (consume c l) = true.
+Proof. intros l c D. rewrite consume_done; auto. Qed.
+
+Lemma consume_done_app : forall a b c, is_done (consume c a) = true -> is_done (consume c (a ++ b)) = true.
+Proof. intros a b c D. rewrite consume_app. apply consume_done_mono. exact D. Qed.
+
+(* one operation at step s: offers [off], may only set w_ret to s, and only when the loop returns *)
+Definition OP (s : nat) (w w' : world) (off : list resp) : Prop :=
+  w_cons w' = consume (w_cons w) off /\
+  w_ret w' = (if is_done (w_cons w) then w_ret w else if is_done (w_cons w') then Some s else w_ret w).
+
+Lemma OP_refl : forall s w w', w_cons w' = w_cons w -> w_ret w' = w_ret w -> OP s w w' [].
+Proof.
+  intros s w w' C R. split; [exact C|]. rewrite R, C. destruct (is_done (w_cons w)); reflexivity.
+Qed.
+
+Lemma OP_trans : forall s w w' w'' a b, OP s w w' a -> OP s w' w'' b -> OP s w w'' (a ++ b).
+Proof.
+  intros s w w' w'' a b [C1 R1] [C2 R2]. split.
+  - rewrite C2, C1, consume_app. reflexivity.
+  - rewrite R2, R1, C2, C1.
+    destruct (is_done (w_cons w)) eqn:D.
+    + rewrite !consume_done_mono by (try apply consume_done_mono; auto). reflexivity.
+    + destruct (is_done (consume (w_cons w) a)) eqn:D1.
+      * rewrite consume_done_mono by auto. reflexivity.
+      * reflexivity.
+Qed.
+
+Lemma OP_deliver : forall s w r, OP s w (fst (deliver s w r)) [r].
+Proof.
+  intros s w r. split; [apply deliver_cons1|].
+  unfold deliver. destruct (is_done (w_cons w)) eqn:D; simpl; auto.
+  destruct (recv (w_cons w) r) as [c b]. destruct (is_done c) eqn:Dc; simpl; rewrite Dc; reflexivity.
+Qed.
+
+Lemma OP_flush_one : forall s ms w h, OP s w (flush_one s ms w h) (foff ms w [h]).
+Proof.
+  intros s ms w h. unfold flush_one, foff. simpl filter. fold (lv w h).
+  destruct (lv w h && aware_at ms h); simpl map.
+  - set (w1 := mkW (w_cons w) (w_cancel w) (w_ret w) (set_nth h false (w_live w))
+                   (set_nth h (Z.of_nat s) (w_saw w)) (w_lost w)).
+    change [cancel_resp h] with ([] ++ [cancel_resp h]).
+    apply (OP_trans s w w1); [apply OP_refl; reflexivity|apply OP_deliver].
+  - apply OP_refl; reflexivity.
+Qed.
+
+Lemma OP_flush_fold : forall s ms l w, NoDup l -> OP s w (fold_left (flush_one s ms) l w) (foff ms w l).
+Proof.
+  intros s ms l. induction l as [|h t IH]; intros w ND; simpl.
+  - apply OP_refl; reflexivity.
+  - inversion ND as [|? ? NI ND']; subst.
+    assert (FE : foff ms w (h :: t) = foff ms w [h] ++ foff ms (flush_one s ms w h) t).
+    { unfold foff. simpl filter.
+      assert (FE : filter (fun j => lv (flush_one s ms w h) j && aware_at ms j) t =
+                   filter (fun j => lv w j && aware_at ms j) t).
+      { apply filter_ext_in. intros a Ha. rewrite flush_one_lv.
+        destruct (Nat.eqb_spec a h); [subst; tauto|reflexivity]. }
+      rewrite FE. destruct (lv w h && aware_at ms h); reflexivity. }
+    rewrite FE. eapply OP_trans; [apply OP_flush_one|apply IH; auto].
+Qed.
+
+Lemma OP_flush : forall s ms w, OP s w (flush s ms w) (foff ms w (members ms)).
+Proof. intros. unfold flush. apply OP_flush_fold. apply seq_NoDup. Qed.
+
+(* the time of the response at which the loop returns; tau = the step at which member i's response is offered *)
+Section Timed.
+Variable tau : nat -> nat.
+
+Fixpoint flip (c : rcv) (l : list resp) : option nat :=
+  match l with
+  | [] => None
+  | r :: t => if is_done c then None
+              else if is_done (fst (recv c r)) then Some (tau (r_i r)) else flip (fst (recv c r)) t
+  end.
+
+Lemma flip_none_iff : forall l c, is_done c = false -> (flip c l = None <-> is_done (consume c l) = false).
+Proof.
+  induction l as [|r t IH]; intros c D; simpl.
+  - tauto.
+  - rewrite D. destruct (is_done (fst (recv c r))) eqn:D1.
+    + rewrite consume_done_mono by auto. split; discriminate.
+    + apply IH. exact D1.
+Qed.
+
+Lemma flip_app_at : forall l off c s, is_done c = false ->
+  (forall r, In r off -> tau (r_i r) = s) ->
+  flip c (l ++ off) = match flip c l with
+                      | Some t => Some t
+                      | None => if is_done (consume c (l ++ off)) then Some s else None
+                      end.
+Proof.
+  induction l as [|r t IH]; intros off c s D T.
+  - simpl app. simpl flip at 2. revert c D. induction off as [|x u IHu]; intros c D; simpl.
+    + rewrite D. reflexivity.
+    + rewrite D. destruct (is_done (fst (recv c x))) eqn:D1.
+      * rewrite consume_done_mono by auto. f_equal. apply T. left; auto.
+      * apply IHu; auto. intros y Hy. apply T. right; auto.
+  - simpl. rewrite D. destruct (is_done (fst (recv c r))) eqn:D1; auto.
+Qed.
+
+Variable c0 : rcv.
+Variable n : nat.
+
+(* s_cl is the step at which the last member returned *)
+Definition CL (s_cl : nat) : Prop :=
+  (n = 0 /\ s_cl = 0) \/ ((exists i, i < n /\ tau i = s_cl) /\ (forall j, j < n -> tau j <= s_cl)).
+
+(* l = everything offered so far; every member that has returned did so at its time tau, not after step sp *)
+Definition RInv (w : world) (l : list resp) (sp : nat) : Prop :=
+  ((exists j, lv w j = true) ->
+     w_cons w = consume c0 l /\ w_ret w = flip c0 l /\ (forall t, flip c0 l = Some t -> t <= sp)) /\
+  ((forall j, lv w j = false) ->
+     w_cons w = fin (consume c0 l) /\
+     exists t, w_ret w = Some t /\ t <= sp /\
+       match flip c0 l with Some t' => t = t' | None => CL t end) /\
+  (forall j, j < n -> lv w j = false -> tau j <= sp) /\
+  (forall j, lv w j = true -> j < n).
+
+Lemma RInv_weaken : forall w l sp sp', sp <= sp' -> RInv w l sp -> RInv w l sp'.
+Proof.
+  intros w l sp sp' LE [A [B [C E]]]. split; [|split; [|split; [|exact E]]].
+  - intros H. destruct (A H) as [X [Y Z]]. repeat split; auto. intros t Ht. specialize (Z t Ht). lia.
+  - intros H. destruct (B H) as [X [t [R [T M]]]]. split; auto. exists t. repeat split; auto. lia.
+  - intros j Hj L. specialize (C j Hj L). lia.
+Qed.
+
+(* an event at step s: operations offering [off] (all at time s), then settle *)
+Lemma event_ret : forall w w' l off s sp,
+  is_done c0 = false -> RInv w l sp -> sp <= s -> (exists j, lv w j = true) ->
+  OP s w w' off ->
+  (forall r, In r off -> tau (r_i r) = s) ->
+  (forall j, lv w' j = true -> lv w j = true) ->
+  (forall j, j < n -> lv w j = true -> lv w' j = false -> tau j = s) ->
+  RInv (settle s w') (l ++ off) s.
+Proof.
+  intros w w' l off s sp D0 [A [_ [C E]]] LT AL [OC OR] T SUB DIE.
+  destruct (A AL) as [WC [WR WB]].
+  assert (C' : w_cons w' = consume c0 (l ++ off)) by (rewrite OC, WC, consume_app; reflexivity).
+  assert (FL : flip c0 (l ++ off) = match flip c0 l with
+                                    | Some t => Some t
+                                    | None => if is_done (consume c0 (l ++ off)) then Some s else None
+                                    end) by (apply flip_app_at; auto).
+  assert (R' : w_ret w' = flip c0 (l ++ off)).
+  { rewrite OR, WR, WC, FL, C'.
+    destruct (flip c0 l) as [t|] eqn:F.
+    - destruct (is_done (consume c0 l)) eqn:D1; auto.
+      apply (flip_none_iff l c0 D0) in D1. congruence.
+    - apply (flip_none_iff l c0 D0) in F. rewrite F. reflexivity. }
+  assert (DEAD : forall j, j < n -> lv w' j = false -> tau j <= s).
+  { intros j Hj L'. destruct (lv w j) eqn:L.
+    - rewrite (DIE j Hj L L'). lia.
+    - specialize (C j Hj L). lia. }
+  assert (E' : forall j, lv w' j = true -> j < n) by (intros j Hj; apply E, SUB; exact Hj).
+  assert (BND : forall t, flip c0 (l ++ off) = Some t -> t <= s).
+  { intros t Ht. rewrite FL in Ht. destruct (flip c0 l) as [t0|] eqn:F0.
+    - inversion Ht; subst. specialize (WB t eq_refl). lia.
+    - destruct (is_done (consume c0 (l ++ off))); inversion Ht. lia. }
+  split; [|split; [|split]].
+  - intros [j Hj]. rewrite settle_lv in Hj. unfold settle.
+    destruct (is_done (w_cons w')) eqn:D1; auto.
+    destruct (forallb negb (w_live w')) eqn:F; auto.
+    pose proof (proj1 (alldead_iff w') F j). congruence.
+  - intros H. assert (H' : forall j, lv w' j = false) by (intros j; rewrite <- (settle_lv s); auto).
+    pose proof (proj2 (alldead_iff w') H') as F.
+    unfold settle. rewrite F. rewrite C' in *. unfold fin.
+    destruct (is_done (consume c0 (l ++ off))) eqn:D1.
+    + split; auto. rewrite R'.
+      destruct (flip c0 (l ++ off)) as [t|] eqn:F1.
+      * exists t. repeat split; auto.
+      * apply (flip_none_iff _ c0 D0) in F1. congruence.
+    + simpl. split; auto. exists s. repeat split; auto.
+      assert (F1 : flip c0 (l ++ off) = None) by (apply (flip_none_iff _ c0 D0); exact D1).
+      rewrite F1. destruct AL as [i Hi]. right. split.
+      * exists i. split; [apply E; auto|]. apply DIE; auto.
+      * intros j Hj. apply DEAD; auto.
+  - intros j Hj L. rewrite settle_lv in L. apply DEAD; auto.
+  - intros j Hj. rewrite settle_lv in Hj. apply E'. exact Hj.
+Qed.
+End Timed.
+
+Lemma RInv_same : forall tau c0 n w w' l sp,
+  w_cons w' = w_cons w -> w_ret w' = w_ret w -> (forall j, lv w' j = lv w j) ->
+  RInv tau c0 n w l sp -> RInv tau c0 n w' l sp.
+Proof.
+  intros tau c0 n w w' l sp C R L [A [B [D E]]]. split; [|split; [|split]].
+  - intros [j Hj]. rewrite C, R. apply A. exists j. rewrite <- L. exact Hj.
+  - intros H. rewrite C, R. apply B. intros j. rewrite <- L. apply H.
+  - intros j Hj Lj. apply D; auto. rewrite <- L. exact Lj.
+  - intros j Hj. apply E. rewrite <- L. exact Hj.
+Qed.
+
+Lemma RInv_dead_done : forall tau c0 n w l sp, RInv tau c0 n w l sp -> (forall j, lv w j = false) ->
+  is_done (w_cons w) = true.
+Proof.
+  intros tau c0 n w l sp [_ [B _]] H. destruct (B H) as [C _]. rewrite C. unfold fin.
+  destruct (is_done (consume c0 l)) eqn:D; auto.
+Qed.
+
+Lemma settle_done_id : forall s w, is_done (w_cons w) = true -> settle s w = w.
+Proof. intros s w D. unfold settle. rewrite D. reflexivity. Qed.
+
+Section TimedRun.
+Variable tau : nat -> nat.
+Variable c0 : rcv.
+Variable ms : list member.
+Hypothesis D0 : is_done c0 = false.
+Let n := List.length ms.
+Let RI := RInv tau c0 n.
+
+Lemma release_NA_lv : forall w s i j, lv w i = true -> NA ms w ->
+  lv (release ms w s i) j = lv w j && negb (Nat.eqb j i).
+Proof.
+  intros w s i j L N. rewrite release_live by auto. cbv zeta. rewrite settle_lv.
+  set (d := deliver s (member_returns i w) (own_resp ms i)).
+  assert (N1 : NA ms (set_cancel s (fst d))).
+  { intros x Hx. rewrite set_cancel_lv in Hx. unfold d in Hx. rewrite mr_lv in Hx.
+    apply andb_prop in Hx. apply N. tauto. }
+  destruct (w_cancel (fst d)); [apply mr_lv|]. destruct (snd d); [|apply mr_lv].
+  rewrite flush_NA_id by auto. rewrite set_cancel_lv. apply mr_lv.
+Qed.
+
+Lemma OP_returns : forall s w i, OP s w (fst (deliver s (member_returns i w) (own_resp ms i))) [own_resp ms i].
+Proof.
+  intros s w i. change [own_resp ms i] with ([] ++ [own_resp ms i]).
+  apply (OP_trans s w (member_returns i w)); [apply OP_refl; reflexivity|apply OP_deliver].
+Qed.
+
+Lemma release_NA_R : forall w s i l sp, lv w i = true -> NA ms w -> RI w l sp -> sp <= s -> tau i = s ->
+  RI (release ms w s i) (l ++ [own_resp ms i]) s.
+Proof.
+  intros w s i l sp L N R LE T. rewrite release_live by auto. cbv zeta.
+  set (d := deliver s (member_returns i w) (own_resp ms i)).
+  assert (N1 : NA ms (set_cancel s (fst d))).
+  { intros x Hx. rewrite set_cancel_lv in Hx. unfold d in Hx. rewrite mr_lv in Hx.
+    apply andb_prop in Hx. apply N. tauto. }
+  set (X := match w_cancel (fst d) with
+            | None => if snd d then flush s ms (set_cancel s (fst d)) else fst d
+            | Some _ => fst d end).
+  assert (XC : w_cons X = w_cons (fst d) /\ w_ret X = w_ret (fst d) /\ forall j, lv X j = lv (fst d) j).
+  { unfold X. destruct (w_cancel (fst d)); auto. destruct (snd d); auto.
+    rewrite flush_NA_id by auto. auto. }
+  destruct XC as [X1 [X2 X3]].
+  apply (event_ret tau c0 n w X l [own_resp ms i] s sp); auto.
+  - exists i; auto.
+  - destruct (OP_returns s w i) as [O1 O2]. fold d in O1, O2. split; rewrite ?X1, ?X2; auto.
+  - intros r [<-|[]]. exact T.
+  - intros j Hj. rewrite X3 in Hj. unfold d in Hj. rewrite mr_lv in Hj. apply andb_prop in Hj. tauto.
+  - intros j Hj Lj Lj'. rewrite X3 in Lj'. unfold d in Lj'. rewrite mr_lv, Lj in Lj'. simpl in Lj'.
+    apply negb_false_iff in Lj'. apply Nat.eqb_eq in Lj'. rewrite Lj'. exact T.
+Qed.
+
+Lemma pcancel_NA_R : forall w s l sp, NA ms w -> RI w l sp -> sp <= s -> RI (pcancel ms w s) l s.
+Proof.
+  intros w s l sp N R LE. unfold pcancel. destruct (w_cancel w); [eapply RInv_weaken; eauto|].
+  rewrite flush_NA_id by exact N.
+  destruct (classic_dead w) as [A|AL].
+  - rewrite settle_done_id by (simpl; eapply RInv_dead_done; eauto).
+    eapply RInv_weaken; [exact LE|]. eapply RInv_same; [| | |exact R]; reflexivity.
+  - rewrite <- (app_nil_r l).
+    apply (event_ret tau c0 n w (set_cancel s w) l [] s sp); auto.
+    + apply OP_refl; reflexivity.
+    + intros r [].
+    + intros j Hj Lj Lj'. rewrite set_cancel_lv in Lj'. congruence.
+Qed.
+
+Lemma phase2_R : forall B w s l sp, NA ms w -> RI w l sp -> sp < s -> NoDup (rel_order B) ->
+  (forall p i, nth_error B p = Some (ERel i) -> lv w i = true -> tau i = s + p) ->
+  RI (run_w ms w s B) (l ++ map (own_resp ms) (filter (lv w) (rel_order B))) (Nat.pred (s + List.length B)).
+Proof.
+  induction B as [|e t IH]; intros w s l sp N R LT ND T; simpl.
+  - rewrite app_nil_r. eapply RInv_weaken; [|exact R]. lia.
+  - replace (Nat.pred (s + S (List.length t))) with (Nat.pred (S s + List.length t)) by lia.
+    destruct e as [i|]; simpl.
+    + inversion ND as [|? ? NI ND']; subst.
+      destruct (lv w i) eqn:L.
+      * assert (Ti : tau i = s) by (rewrite (T 0 i eq_refl L); lia).
+        pose proof (release_NA_R w s i l sp L N R (Nat.lt_le_incl _ _ LT) Ti) as R1.
+        assert (L1 : forall j, lv (release ms w s i) j = lv w j && negb (Nat.eqb j i))
+          by (intros; apply release_NA_lv; auto).
+        assert (N1 : NA ms (release ms w s i)).
+        { intros j Hj. rewrite L1 in Hj. apply andb_prop in Hj. apply N. tauto. }
+        assert (FE : filter (lv (release ms w s i)) (rel_order t) = filter (lv w) (rel_order t)).
+        { apply filter_ext_in. intros a Ha. rewrite L1.
+          destruct (Nat.eqb_spec a i); [subst; tauto|apply andb_true_r]. }
+        specialize (IH _ (S s) _ s N1 R1 (Nat.lt_succ_diag_r s) ND').
+        rewrite FE, <- app_assoc in IH. apply IH.
+        intros p j Hp Lj. rewrite L1 in Lj. apply andb_prop in Lj as [Lj _].
+        rewrite (T (S p) j Hp Lj). lia.
+      * rewrite release_dead by auto.
+        assert (R1 : RI w l s) by (eapply RInv_weaken; [|exact R]; lia).
+        apply (IH w (S s) l s N R1 (Nat.lt_succ_diag_r s) ND').
+        intros p j Hp Lj. rewrite (T (S p) j Hp Lj). lia.
+    + pose proof (pcancel_NA_R w s l sp N R (Nat.lt_le_incl _ _ LT)) as R1.
+      destruct (classic_dead w) as [A|AL].
+      * (* nothing alive: lv unchanged *)
+        assert (L1 : forall j, lv (pcancel ms w s) j = lv w j).
+        { intros j. unfold pcancel. destruct (w_cancel w); auto.
+          rewrite flush_NA_id by exact N. rewrite settle_lv. reflexivity. }
+        assert (N1 : NA ms (pcancel ms w s)) by (intros j Hj; rewrite L1 in Hj; auto).
+        assert (FE : filter (lv (pcancel ms w s)) (rel_order t) = filter (lv w) (rel_order t))
+          by (apply filter_ext_in; intros; apply L1).
+        specialize (IH _ (S s) _ s N1 R1 (Nat.lt_succ_diag_r s) ND). rewrite FE in IH. apply IH.
+        intros p j Hp Lj. rewrite L1 in Lj. rewrite (T (S p) j Hp Lj). lia.
+      * assert (L1 : forall j, lv (pcancel ms w s) j = lv w j).
+        { intros j. unfold pcancel. destruct (w_cancel w); auto.
+          rewrite flush_NA_id by exact N. rewrite settle_lv. reflexivity. }
+        assert (N1 : NA ms (pcancel ms w s)) by (intros j Hj; rewrite L1 in Hj; auto).
+        assert (FE : filter (lv (pcancel ms w s)) (rel_order t) = filter (lv w) (rel_order t))
+          by (apply filter_ext_in; intros; apply L1).
+        specialize (IH _ (S s) _ s N1 R1 (Nat.lt_succ_diag_r s) ND). rewrite FE in IH. apply IH.
+        intros p j Hp Lj. rewrite L1 in Lj. rewrite (T (S p) j Hp Lj). lia.
+Qed.
+End TimedRun.
+
+Section TimedRun2.
+Variable tau : nat -> nat.
+Variable c0 : rcv.
+Variable ms : list member.
+Hypothesis D0 : is_done c0 = false.
+Let n := List.length ms.
+Let RI := RInv tau c0 n.
+
+Lemma release_quiet_R : forall w s i c l sp, P1 w c -> lv w i = true -> sig c (own_resp ms i) = false ->
+  RI w l sp -> sp <= s -> tau i = s -> RI (release ms w s i) (l ++ [own_resp ms i]) s.
+Proof.
+  intros w s i c l sp P L SG R LE T. destruct (P1_live w c i P L) as [E [K D]].
+  rewrite release_live by auto. cbv zeta.
+  set (d := deliver s (member_returns i w) (own_resp ms i)).
+  assert (K1 : w_cancel (fst d) = None) by (unfold d; rewrite deliver_cancel; exact K).
+  assert (S1 : snd d = false).
+  { unfold d. rewrite deliver_sig by (simpl; rewrite E; exact D). simpl w_cons. rewrite E. exact SG. }
+  rewrite K1, S1.
+  apply (event_ret tau c0 n w (fst d) l [own_resp ms i] s sp); auto.
+  - exists i; auto.
+  - apply OP_returns.
+  - intros r [<-|[]]. exact T.
+  - intros j Hj. unfold d in Hj. rewrite mr_lv in Hj. apply andb_prop in Hj. tauto.
+  - intros j Hj Lj Lj'. unfold d in Lj'. rewrite mr_lv, Lj in Lj'. simpl in Lj'.
+    apply negb_false_iff in Lj'. apply Nat.eqb_eq in Lj'. rewrite Lj'. exact T.
+Qed.
+
+Lemma phase1_R : forall A w s c l sp, P1 w c -> RI w l sp -> sp < s -> NoDup A ->
+  (forall i, In i A -> lv w i = true) -> quiet c (map (own_resp ms) A) = true ->
+  (forall p i, nth_error A p = Some i -> tau i = s + p) ->
+  RI (run_w ms w s (map ERel A)) (l ++ map (own_resp ms) A) (Nat.pred (s + List.length A)).
+Proof.
+  induction A as [|i t IH]; intros w s c l sp P R LT ND LV Q T; simpl.
+  - rewrite app_nil_r. eapply RInv_weaken; [|exact R]. lia.
+  - replace (Nat.pred (s + S (List.length t))) with (Nat.pred (S s + List.length t)) by lia.
+    inversion ND as [|? ? NI ND']; subst. simpl in Q. apply andb_prop in Q as [Q1 Q2].
+    apply negb_true_iff in Q1.
+    assert (L : lv w i = true) by (apply LV; left; auto).
+    assert (Ti : tau i = s) by (rewrite (T 0 i eq_refl); lia).
+    destruct (release_quiet ms w s i c P L Q1) as [P' L'].
+    pose proof (release_quiet_R w s i c l sp P L Q1 R (Nat.lt_le_incl _ _ LT) Ti) as R1.
+    specialize (IH _ (S s) _ _ s P' R1 (Nat.lt_succ_diag_r s) ND').
+    rewrite <- app_assoc in IH. apply IH; auto.
+    + intros a Ha. rewrite L', (LV a) by (right; auto).
+      destruct (Nat.eqb_spec a i); [subst; tauto|reflexivity].
+    + intros p j Hp. rewrite (T (S p) j Hp). lia.
+Qed.
+
+Lemma pcancel_P1_R : forall w s c l sp, P1 w c -> RI w l sp -> sp <= s ->
+  (forall j, lv w j = true -> aware_at ms j = true -> tau j = s) ->
+  RI (pcancel ms w s) (l ++ foff ms w (members ms)) s.
+Proof.
+  intros w s c l sp P R LE T.
+  destruct (classic_dead w) as [A|[i Li]].
+  - assert (N : NA ms w) by (intros j Hj; rewrite A in Hj; discriminate).
+    rewrite foff_NA, app_nil_r by auto. eapply pcancel_NA_R; eauto.
+  - destruct (P1_live w c i P Li) as [E [K D]]. unfold pcancel. rewrite K.
+    destruct (flush_closed s ms (set_cancel s w)) as [_ [_ FL]].
+    apply (event_ret tau c0 n w (flush s ms (set_cancel s w)) l (foff ms w (members ms)) s sp); auto.
+    + exists i; auto.
+    + change (foff ms w (members ms)) with ([] ++ foff ms (set_cancel s w) (members ms)).
+      apply (OP_trans s w (set_cancel s w)); [apply OP_refl; reflexivity|apply OP_flush].
+    + intros r Hr. unfold foff in Hr. apply in_map_iff in Hr as [j [<- Hj]].
+      apply filter_In in Hj as [_ Hj]. apply andb_prop in Hj as [H1 H2]. simpl. auto.
+    + intros j Hj. rewrite FL, set_cancel_lv in Hj. apply andb_prop in Hj. tauto.
+    + intros j Hj Lj Lj'. rewrite FL, set_cancel_lv, Lj in Lj'. simpl in Lj'.
+      apply negb_false_iff in Lj'. auto.
+Qed.
+
+Lemma release_sig_R : forall w s h c l sp, P1 w c -> lv w h = true -> sig c (own_resp ms h) = true ->
+  RI w l sp -> sp <= s -> tau h = s ->
+  (forall j, lv w j = true -> aware_at ms j = true -> tau j = s) ->
+  RI (release ms w s h)
+     (l ++ own_resp ms h ::
+           map cancel_resp (filter (fun j => lv w j && negb (Nat.eqb j h) && aware_at ms j) (members ms))) s.
+Proof.
+  intros w s h c l sp P L SG R LE Th T. destruct (P1_live w c h P L) as [E [K D]].
+  rewrite release_live by auto. cbv zeta.
+  set (d := deliver s (member_returns h w) (own_resp ms h)).
+  assert (K1 : w_cancel (fst d) = None) by (unfold d; rewrite deliver_cancel; exact K).
+  assert (S1 : snd d = true).
+  { unfold d. rewrite deliver_sig by (simpl; rewrite E; exact D). simpl w_cons. rewrite E. exact SG. }
+  rewrite K1, S1.
+  destruct (flush_closed s ms (set_cancel s (fst d))) as [_ [_ FL]].
+  assert (L1 : forall j, lv (fst d) j = lv w j && negb (Nat.eqb j h)) by (intros; apply mr_lv).
+  assert (FE : map cancel_resp (filter (fun j => lv w j && negb (Nat.eqb j h) && aware_at ms j) (members ms))
+               = foff ms (set_cancel s (fst d)) (members ms)).
+  { unfold foff. f_equal. apply filter_ext. intros j. rewrite set_cancel_lv, L1. reflexivity. }
+  rewrite FE.
+  apply (event_ret tau c0 n w (flush s ms (set_cancel s (fst d))) l
+           (own_resp ms h :: foff ms (set_cancel s (fst d)) (members ms)) s sp); auto.
+  - exists h; auto.
+  - change (own_resp ms h :: foff ms (set_cancel s (fst d)) (members ms))
+      with ([own_resp ms h] ++ foff ms (set_cancel s (fst d)) (members ms)).
+    apply (OP_trans s w (set_cancel s (fst d))).
+    + destruct (OP_returns ms s w h) as [O1 O2]. split; auto.
+    + apply OP_flush.
+  - intros r [<-|Hr]; [exact Th|].
+    unfold foff in Hr. apply in_map_iff in Hr as [j [<- Hj]].
+    apply filter_In in Hj as [_ Hj]. rewrite set_cancel_lv, L1 in Hj.
+    apply andb_prop in Hj as [H1 H2]. apply andb_prop in H1 as [H1 _]. simpl. auto.
+  - intros j Hj. rewrite FL, set_cancel_lv, L1 in Hj. apply andb_prop in Hj as [Hj _].
+    apply andb_prop in Hj. tauto.
+  - intros j Hj Lj Lj'. rewrite FL, set_cancel_lv, L1, Lj in Lj'. simpl in Lj'.
+    destruct (Nat.eqb_spec j h) as [->|NE]; [exact Th|]. simpl in Lj'.
+    apply negb_false_iff in Lj'. auto.
+Qed.
+
+Lemma init_R : 0 < n -> RI (init_world c0 n) [] 0.
+Proof.
+  intros H. split; [|split; [|split]].
+  - intros _. simpl. repeat split; auto. discriminate.
+  - intros A. specialize (A 0). rewrite init_lv in A. apply Nat.ltb_ge in A. lia.
+  - intros j Hj L. rewrite init_lv in L. apply Nat.ltb_ge in L. lia.
+  - intros j Hj. rewrite init_lv in Hj. apply Nat.ltb_lt in Hj. exact Hj.
+Qed.
+
+Lemma start_R : RI (start_w c0 ms false) [] 0.
+Proof.
+  unfold start_w. cbv zeta. fold n. destruct (Nat.eq_dec n 0) as [Z|NZ].
+  - rewrite Z. unfold settle. simpl. rewrite D0. split; [|split; [|split]]; simpl.
+    + intros [j Hj]. unfold lv in Hj. simpl in Hj. destruct j; discriminate.
+    + intros _. unfold fin. rewrite D0. split; auto. exists 0. repeat split; auto. left. auto.
+    + intros j Hj. lia.
+    + intros j Hj. unfold lv in Hj. simpl in Hj. destruct j; discriminate.
+  - assert (P : 0 < n) by lia.
+    change (@nil resp) with (@nil resp ++ []).
+    apply (event_ret tau c0 n (init_world c0 n) (init_world c0 n) [] [] 0 0); auto.
+    + apply init_R; auto.
+    + exists 0. rewrite init_lv. apply Nat.ltb_lt. auto.
+    + apply OP_refl; reflexivity.
+    + intros r [].
+    + intros j Hj Lj Lj'. congruence.
+Qed.
+
+Lemma start_pre_R : (forall j, j < n -> aware_at ms j = true -> tau j = 0) ->
+  RI (start_w c0 ms true) (map cancel_resp (filter (aware_at ms) (members ms))) 0.
+Proof.
+  intros T. unfold start_w. cbv zeta. fold n. destruct (Nat.eq_dec n 0) as [Z|NZ].
+  - unfold RI, n in *. clear T. destruct ms as [|m0 t0]; [|simpl in Z; discriminate]. simpl.
+    unfold settle. simpl. rewrite D0. split; [|split; [|split]]; simpl.
+    + intros [j Hj]. unfold lv in Hj. simpl in Hj. destruct j; discriminate.
+    + intros _. unfold fin. rewrite D0. split; auto. exists 0. repeat split; auto. left. auto.
+    + intros j Hj. lia.
+    + intros j Hj. unfold lv in Hj. simpl in Hj. destruct j; discriminate.
+  - assert (P : 0 < n) by lia.
+    set (w0 := init_world c0 n).
+    destruct (flush_closed 0 ms (set_cancel 0 w0)) as [_ [_ FL]].
+    assert (FE : map cancel_resp (filter (aware_at ms) (members ms)) = foff ms (set_cancel 0 w0) (members ms)).
+    { unfold foff. f_equal. apply filter_ext_in. intros j Hj. rewrite set_cancel_lv. unfold w0. rewrite init_lv.
+      apply members_in' in Hj. apply Nat.ltb_lt in Hj. fold n in Hj. rewrite Hj. reflexivity. }
+    rewrite FE. change (foff ms (set_cancel 0 w0) (members ms)) with ([] ++ foff ms (set_cancel 0 w0) (members ms)).
+    apply (event_ret tau c0 n w0 (flush 0 ms (set_cancel 0 w0)) [] _ 0 0); auto.
+    + apply init_R; auto.
+    + exists 0. unfold w0. rewrite init_lv. apply Nat.ltb_lt. auto.
+    + change (foff ms (set_cancel 0 w0) (members ms)) with ([] ++ foff ms (set_cancel 0 w0) (members ms)).
+      apply (OP_trans 0 w0 (set_cancel 0 w0)); [apply OP_refl; reflexivity|apply OP_flush].
+    + intros r Hr. unfold foff in Hr. apply in_map_iff in Hr as [j [<- Hj]].
+      apply filter_In in Hj as [Hm Hj]. apply andb_prop in Hj as [H1 H2]. simpl.
+      apply T; auto. apply members_in' in Hm. exact Hm.
+    + intros j Hj. rewrite FL, set_cancel_lv in Hj. apply andb_prop in Hj. tauto.
+    + intros j Hj Lj Lj'. rewrite FL, set_cancel_lv, Lj in Lj'. simpl in Lj'.
+      apply negb_false_iff in Lj'. auto.
+Qed.
+End TimedRun2.
+
+(* ---- the times of the closed form: tau = ret_step ---- *)
+Lemma nth_error_rel : forall A (X : list ev) p i, nth_error A p = Some i ->
+  nth_error (map ERel A ++ X) p = Some (ERel i).
+Proof.
+  intros A X p i H. rewrite nth_error_app1.
+  - apply map_nth_error. exact H.
+  - rewrite map_length. apply nth_error_Some. congruence.
+Qed.
+
+Lemma nth_error_after : forall A (X : list ev) p, nth_error (map ERel A ++ X) (List.length A + p) = nth_error X p.
+Proof.
+  intros A X p. rewrite nth_error_app2 by (rewrite map_length; lia).
+  rewrite map_length. f_equal. lia.
+Qed.
+
+Section Times.
+Variable ms : list member.
+Variable A : list nat.
+Variable X : list ev.
+Variable q : nat.
+Hypothesis P : is_perm (A ++ rel_order X) (List.length ms).
+Hypothesis LE : List.length A <= q.
+Hypothesis GT : forall i, In i (rel_order X) -> q < tpos (map ERel A ++ X) i.
+Let evs := map ERel A ++ X.
+Let tau := ret_step ms evs q.
+
+Lemma ND_evs : NoDup (rel_order evs).
+Proof. unfold evs. rewrite rel_order_app, rel_order_map. eapply perm_nodup; eauto. Qed.
+
+Lemma tau_A : forall p i, nth_error A p = Some i -> tau i = 1 + p.
+Proof.
+  intros p i H. unfold tau, ret_step, flushed.
+  assert (T : tpos evs i = 1 + p).
+  { unfold tpos. apply nth_tpos_from; [apply ND_evs|]. apply nth_error_rel. exact H. }
+  rewrite T. assert (p < List.length A) by (apply nth_error_Some; congruence).
+  destruct (Nat.ltb_spec q (1 + p)); [lia|]. rewrite andb_false_r. reflexivity.
+Qed.
+
+Lemma tau_flushed : forall j, j < List.length ms -> inb j A = false -> aware_at ms j = true -> tau j = q.
+Proof.
+  intros j Hj NA' AW. unfold tau, ret_step, flushed. rewrite AW. simpl.
+  pose proof (perm_cover _ _ j P Hj) as C. rewrite inb_app, NA' in C. simpl in C. apply inb_true in C.
+  specialize (GT j C). apply Nat.ltb_lt in GT. fold evs in GT. rewrite GT. reflexivity.
+Qed.
+
+Lemma tau_X : forall p i, nth_error X p = Some (ERel i) -> aware_at ms i = false ->
+  tau i = 1 + List.length A + p.
+Proof.
+  intros p i H AW. unfold tau, ret_step, flushed. rewrite AW. simpl.
+  unfold tpos. rewrite (nth_tpos_from i evs 1 (List.length A + p)); [lia|apply ND_evs|].
+  unfold evs. rewrite nth_error_after. exact H.
+Qed.
+End Times.
+
+(* ---- w_ret only ever becomes the current step; the cancellation step is sticky ---- *)
+Definition RS (s : nat) (w w' : world) : Prop := w_ret w' = w_ret w \/ w_ret w' = Some s.
+
+Lemma OP_RS : forall s w w' off, OP s w w' off -> RS s w w'.
+Proof.
+  intros s w w' off [_ R]. unfold RS. rewrite R.
+  destruct (is_done (w_cons w)); auto. destruct (is_done (w_cons w')); auto.
+Qed.
+
+Lemma RS_trans : forall s w w' w'', RS s w w' -> RS s w' w'' -> RS s w w''.
+Proof. intros s w w' w'' [A|A] [B|B]; unfold RS; rewrite ?B, ?A; auto. Qed.
+
+Lemma RS_settle : forall s w, RS s w (settle s w).
+Proof.
+  intros s w. unfold RS, settle. destruct (is_done (w_cons w)); auto.
+  destruct (forallb negb (w_live w)); simpl; auto.
+Qed.
+
+Lemma RS_step : forall ms w s e, RS s w (step_w ms w s e).
+Proof.
+  intros ms w s [i|]; simpl.
+  - destruct (lv w i) eqn:L; [|rewrite release_dead by auto; left; reflexivity].
+    rewrite release_live by auto. cbv zeta.
+    eapply RS_trans; [|apply RS_settle].
+    pose proof (OP_RS _ _ _ _ (OP_returns ms s w i)) as R1.
+    destruct (w_cancel (fst (deliver s (member_returns i w) (own_resp ms i)))); auto.
+    destruct (snd (deliver s (member_returns i w) (own_resp ms i))); auto.
+    eapply RS_trans; [exact R1|].
+    eapply RS_trans; [|eapply OP_RS; apply OP_flush]. left. reflexivity.
+  - unfold pcancel. destruct (w_cancel w); [left; reflexivity|].
+    eapply RS_trans; [|apply RS_settle].
+    eapply RS_trans; [|eapply OP_RS; apply OP_flush]. left. reflexivity.
+Qed.
+
+Lemma ret_lower_gen : forall ms B w s lo, (forall t, w_ret w = Some t -> lo <= t) -> lo <= s ->
+  forall t, w_ret (run_w ms w s B) = Some t -> lo <= t.
+Proof.
+  intros ms B. induction B as [|e u IH]; intros w s lo H LS t R; simpl in R; auto.
+  apply (IH (step_w ms w s e) (S s) lo); auto.
+  intros t' R'. destruct (RS_step ms w s e) as [E|E].
+  - apply H. rewrite <- E. exact R'.
+  - rewrite E in R'. inversion R'; subst. exact LS.
+Qed.
+
+Lemma ret_lower : forall ms B w s t, w_ret w = None -> w_ret (run_w ms w s B) = Some t -> s <= t.
+Proof.
+  intros ms B w s t N R. apply (ret_lower_gen ms B w s s); auto. intros t' H. congruence.
+Qed.
+
+(* ---- the cancellation step ---- *)
+Lemma settle_cancel_some : forall s w x, w_cancel w = Some x -> w_cancel (settle s w) = Some x.
+Proof.
+  intros s w x K. unfold settle. destruct (is_done (w_cons w)); auto.
+  destruct (forallb negb (w_live w)); simpl; auto. rewrite K. reflexivity.
+Qed.
+
+Lemma flush_cancel : forall s ms w, w_cancel (flush s ms w) = w_cancel w.
+Proof. intros. destruct (flush_closed s ms w) as [_ [K _]]. exact K. Qed.
+
+Lemma step_cancel_sticky : forall ms w s e x, w_cancel w = Some x -> w_cancel (step_w ms w s e) = Some x.
+Proof.
+  intros ms w s [i|] x K; simpl.
+  - destruct (lv w i) eqn:L; [|rewrite release_dead by auto; exact K].
+    rewrite release_live by auto. cbv zeta. apply settle_cancel_some.
+    assert (K1 : w_cancel (fst (deliver s (member_returns i w) (own_resp ms i))) = Some x)
+      by (rewrite deliver_cancel; exact K).
+    rewrite K1. exact K1.
+  - unfold pcancel. rewrite K. exact K.
+Qed.
+
+Lemma run_cancel_sticky : forall ms B w s x, w_cancel w = Some x -> w_cancel (run_w ms w s B) = Some x.
+Proof.
+  intros ms B. induction B as [|e t IH]; intros w s x K; simpl; auto.
+  apply IH. apply step_cancel_sticky. exact K.
+Qed.
+
+Lemma run_dead_id : forall ms B w s x, (forall j, lv w j = false) -> w_cancel w = Some x ->
+  run_w ms w s B = w.
+Proof.
+  intros ms B. induction B as [|e t IH]; intros w s x A K; simpl; auto.
+  assert (E : step_w ms w s e = w).
+  { destruct e as [i|]; simpl; [apply release_dead; auto|]. unfold pcancel. rewrite K. reflexivity. }
+  rewrite E. eapply IH; eauto.
+Qed.
+
+Lemma pcancel_sets : forall ms w s, w_cancel w = None -> w_cancel (pcancel ms w s) = Some s.
+Proof.
+  intros ms w s K. unfold pcancel. rewrite K. apply settle_cancel_some. rewrite flush_cancel. reflexivity.
+Qed.
+
+Lemma release_sig_sets : forall ms w s h c, P1 w c -> lv w h = true -> sig c (own_resp ms h) = true ->
+  w_cancel (release ms w s h) = Some s.
+Proof.
+  intros ms w s h c P L SG. destruct (P1_live w c h P L) as [E [K D]].
+  rewrite release_live by auto. cbv zeta.
+  set (d := deliver s (member_returns h w) (own_resp ms h)).
+  assert (K1 : w_cancel (fst d) = None) by (unfold d; rewrite deliver_cancel; exact K).
+  assert (S1 : snd d = true).
+  { unfold d. rewrite deliver_sig by (simpl; rewrite E; exact D). simpl w_cons. rewrite E. exact SG. }
+  rewrite K1, S1. apply settle_cancel_some. rewrite flush_cancel. reflexivity.
+Qed.
+
+Lemma start_pre_cancel : forall c ms, w_cancel (start_w c ms true) = Some 0.
+Proof. intros. unfold start_w. cbv zeta. apply settle_cancel_some. rewrite flush_cancel. reflexivity. Qed.
+
+(* in phase 1: nobody cancelled while somebody runs; when the last member returns quietly the
+   channel closes: the call returns and its deferred cancel runs at that very step *)
+Definition CR (w : world) : Prop :=
+  ((exists j, lv w j = true) -> w_cancel w = None) /\ ((forall j, lv w j = false) -> w_cancel w = w_ret w).
+
+Lemma release_quiet_CR : forall ms w s i c, P1 w c -> lv w i = true -> sig c (own_resp ms i) = false ->
+  w_ret w = None -> CR (release ms w s i).
+Proof.
+  intros ms w s i c P L SG RN. destruct (P1_live w c i P L) as [E [K D]].
+  rewrite release_live by auto. cbv zeta.
+  set (d := deliver s (member_returns i w) (own_resp ms i)).
+  assert (K1 : w_cancel (fst d) = None) by (unfold d; rewrite deliver_cancel; exact K).
+  assert (S1 : snd d = false).
+  { unfold d. rewrite deliver_sig by (simpl; rewrite E; exact D). simpl w_cons. rewrite E. exact SG. }
+  assert (C1 : is_done (w_cons (fst d)) = false).
+  { unfold d. rewrite deliver_cons1, consume_one. simpl w_cons. rewrite E, D.
+    apply sig_false_not_done. exact SG. }
+  rewrite K1, S1. unfold CR, settle. rewrite C1.
+  destruct (forallb negb (w_live (fst d))) eqn:F.
+  - split; simpl.
+    + intros [j Hj]. unfold lv in Hj. simpl in Hj. rewrite (all_dead_nth _ j F) in Hj. discriminate.
+    + intros _. rewrite K1. reflexivity.
+  - split; auto. intros A. pose proof (proj2 (alldead_iff (fst d)) A). congruence.
+Qed.
+
+Lemma RInv_alive_ret_none : forall tau c0 n w l sp c i, is_done c0 = false ->
+  RInv tau c0 n w l sp -> P1 w c -> lv w i = true -> w_ret w = None.
+Proof.
+  intros tau c0 n w l sp c i D0 [A _] P L. destruct (P1_live w c i P L) as [E [_ D]].
+  destruct (A (ex_intro _ i L)) as [C [R _]]. rewrite R. apply (flip_none_iff tau l c0 D0).
+  rewrite <- C, E. exact D.
+Qed.
+
+Lemma phase1_RC : forall tau c0 ms, is_done c0 = false ->
+  forall A w s c l sp, P1 w c -> RInv tau c0 (List.length ms) w l sp -> CR w -> sp < s -> NoDup A ->
+  (forall i, In i A -> lv w i = true) -> quiet c (map (own_resp ms) A) = true ->
+  (forall p i, nth_error A p = Some i -> tau i = s + p) ->
+  RInv tau c0 (List.length ms) (run_w ms w s (map ERel A)) (l ++ map (own_resp ms) A) (Nat.pred (s + List.length A))
+  /\ CR (run_w ms w s (map ERel A)).
+Proof.
+  intros tau c0 ms D0. induction A as [|i t IH]; intros w s c l sp P R CRw LT ND LV Q T; simpl.
+  - rewrite app_nil_r. split; auto. eapply RInv_weaken; [|exact R]. lia.
+  - replace (Nat.pred (s + S (List.length t))) with (Nat.pred (S s + List.length t)) by lia.
+    inversion ND as [|? ? NI ND']; subst. simpl in Q. apply andb_prop in Q as [Q1 Q2].
+    apply negb_true_iff in Q1.
+    assert (L : lv w i = true) by (apply LV; left; auto).
+    assert (Ti : tau i = s) by (rewrite (T 0 i eq_refl); lia).
+    destruct (release_quiet ms w s i c P L Q1) as [P' L'].
+    pose proof (release_quiet_R tau c0 ms D0 w s i c l sp P L Q1 R (Nat.lt_le_incl _ _ LT) Ti) as R1.
+    pose proof (release_quiet_CR ms w s i c P L Q1 (RInv_alive_ret_none _ _ _ _ _ _ _ _ D0 R P L)) as C1.
+    specialize (IH _ (S s) _ _ s P' R1 C1 (Nat.lt_succ_diag_r s) ND').
+    rewrite <- app_assoc in IH. apply IH; auto.
+    + intros a Ha. rewrite L', (LV a) by (right; auto).
+      destruct (Nat.eqb_spec a i); [subst; tauto|reflexivity].
+    + intros p j Hp. rewrite (T (S p) j Hp). lia.
+Qed.
+
+Lemma start_CR : forall c ms, is_done c = false -> CR (start_w c ms false).
+Proof.
+  intros c ms D. unfold start_w, CR, settle. cbv zeta. simpl w_cons. rewrite D.
+  destruct (forallb negb (w_live (init_world c (List.length ms)))) eqn:F.
+  - split; simpl.
+    + intros [j Hj]. unfold lv in Hj. simpl in Hj, F. rewrite (all_dead_nth _ j F) in Hj. discriminate.
+    + intros _. reflexivity.
+  - split; auto.
+Qed.
+
+(* ---- closing step = the latest return; flip = the first response that ends the loop ---- *)
+Lemma fold_max_char : forall (f : nat -> nat) l acc t, acc <= t -> (forall j, In j l -> f j <= t) ->
+  (acc = t \/ exists i, In i l /\ f i = t) -> fold_left Nat.max (map f l) acc = t.
+Proof.
+  intros f l. induction l as [|h u IH]; intros acc t LA LB EX; simpl.
+  - destruct EX as [E|[i [[] _]]]. exact E.
+  - apply IH.
+    + pose proof (LB h (or_introl eq_refl)). lia.
+    + intros j Hj. apply LB. right; auto.
+    + pose proof (LB h (or_introl eq_refl)) as Hh.
+      destruct EX as [E|[i [[<-|Hi] Fi]]].
+      * left. lia.
+      * left. lia.
+      * right. eauto.
+Qed.
+
+Lemma CL_all_ret : forall ms evs q t, CL (ret_step ms evs q) (List.length ms) t -> all_ret_step ms evs q = t.
+Proof.
+  intros ms evs q t [[Z ->]|[[i [Hi Ti]] LB]]; unfold all_ret_step, members.
+  - rewrite Z. reflexivity.
+  - apply fold_max_char; [lia| |].
+    + intros j Hj. apply in_seq in Hj. apply LB. lia.
+    + right. exists i. split; auto. apply in_seq. lia.
+Qed.
+
+Definition ends_of (c0 : rcv) (r : resp) : bool :=
+  match c0 with CUpTo _ _ => false | CFast _ => negb (is_err r) | _ => true end.
+
+Lemma flip_upto : forall tau l k u, flip tau (CUpTo k u) l = None.
+Proof.
+  intros tau l. induction l as [|r t IH]; intros k u; simpl; auto.
+  destruct (r_err r =? 0)%Z; simpl; apply IH.
+Qed.
+
+Lemma flip_fast : forall tau l fe,
+  flip tau (CFast fe) l = match find (fun r => negb (is_err r)) l with Some r => Some (tau (r_i r)) | None => None end.
+Proof.
+  intros tau l. induction l as [|r t IH]; intros fe; simpl; auto.
+  unfold is_err. destruct (r_err r =? 0)%Z; simpl; auto.
+Qed.
+
+Lemma flip_race : forall tau l,
+  flip tau CRace l = match l with r :: _ => Some (tau (r_i r)) | [] => None end.
+Proof. intros tau [|r t]; reflexivity. Qed.
+
+(* ---- list forms of the offered sequence ---- *)
+Lemma off_eq_par : forall ms A B w1 w2, is_perm (A ++ rel_order B) (List.length ms) ->
+  (forall j, lv w1 j = (j <? List.length ms) && negb (inb j A)) ->
+  (forall j, lv w2 j = lv w1 j && negb (aware_at ms j)) ->
+  (map (own_resp ms) A ++ foff ms w1 (members ms)) ++ map (own_resp ms) (filter (lv w2) (rel_order B))
+  = OFF ms A B.
+Proof.
+  intros ms A B w1 w2 P L1 L2. unfold OFF. rewrite <- app_assoc. f_equal. f_equal.
+  - unfold foff. f_equal. apply filter_ext_in. intros j Hj. rewrite L1.
+    apply members_in' in Hj. apply Nat.ltb_lt in Hj. rewrite Hj. reflexivity.
+  - f_equal. apply filter_ext_in. intros j Hj. rewrite L2, L1.
+    assert (j < List.length ms) by (eapply perm_lt; [exact P|apply in_or_app; auto]).
+    apply Nat.ltb_lt in H. rewrite H. reflexivity.
+Qed.
+
+Lemma inb_snoc : forall j A h, inb j (A ++ [h]) = inb j A || Nat.eqb j h.
+Proof. intros. rewrite inb_app. f_equal. unfold inb. simpl. apply orb_false_r. Qed.
+
+Lemma off_eq_own : forall ms A h B w1 w2, is_perm ((A ++ [h]) ++ rel_order B) (List.length ms) ->
+  (forall j, lv w1 j = (j <? List.length ms) && negb (inb j A)) ->
+  (forall j, lv w2 j = lv w1 j && negb (Nat.eqb j h) && negb (aware_at ms j)) ->
+  (map (own_resp ms) A ++ own_resp ms h ::
+     map cancel_resp (filter (fun j => lv w1 j && negb (Nat.eqb j h) && aware_at ms j) (members ms)))
+  ++ map (own_resp ms) (filter (lv w2) (rel_order B))
+  = OFF ms (A ++ [h]) B.
+Proof.
+  intros ms A h B w1 w2 P L1 L2. unfold OFF. rewrite map_app, <- !app_assoc. simpl. f_equal. f_equal. f_equal.
+  - f_equal. apply filter_ext_in. intros j Hj. rewrite L1, inb_snoc, negb_orb.
+    apply members_in' in Hj. apply Nat.ltb_lt in Hj. rewrite Hj. reflexivity.
+  - f_equal. apply filter_ext_in. intros j Hj. rewrite L2, L1, inb_snoc, negb_orb.
+    assert (j < List.length ms) by (eapply perm_lt; [exact P|apply in_or_app; auto]).
+    apply Nat.ltb_lt in H. rewrite H. reflexivity.
+Qed.
+
+Lemma off_eq_pre : forall ms B w, is_perm (rel_order B) (List.length ms) ->
+  (forall j, lv w j = (j <? List.length ms) && negb (aware_at ms j)) ->
+  map cancel_resp (filter (aware_at ms) (members ms)) ++ map (own_resp ms) (filter (lv w) (rel_order B))
+  = OFF ms [] B.
+Proof.
+  intros ms B w P L. unfold OFF. simpl. f_equal.
+  f_equal. apply filter_ext_in. intros j Hj. rewrite L.
+  assert (j < List.length ms) by (eapply perm_lt; eauto).
+  apply Nat.ltb_lt in H. rewrite H. reflexivity.
+Qed.
+
+(* ---- the return step and the cancellation step, in closed form ---- *)
+Definition time_spec (c0 : rcv) (ms : list member) (evs : list ev) (q : nat) (W : world) : Prop :=
+  exists t, w_ret W = Some t /\
+    match flip (ret_step ms evs q) c0 (seq_at ms evs q) with
+    | Some t' => t = t'
+    | None => all_ret_step ms evs q = t
+    end /\
+    (0 < List.length ms -> w_cancel W = Some (Nat.min q t)).
+
+Lemma RInv_final : forall c0 ms evs q W sp,
+  RInv (ret_step ms evs q) c0 (List.length ms) W (seq_at ms evs q) sp -> (forall j, lv W j = false) ->
+  exists t, w_ret W = Some t /\ t <= sp /\
+    match flip (ret_step ms evs q) c0 (seq_at ms evs q) with
+    | Some t' => t = t'
+    | None => all_ret_step ms evs q = t
+    end.
+Proof.
+  intros c0 ms evs q W sp [_ [B _]] AD. destruct (B AD) as [_ [t [R [LE M]]]].
+  exists t. repeat split; auto.
+  destruct (flip (ret_step ms evs q) c0 (seq_at ms evs q)); auto. apply CL_all_ret. exact M.
+Qed.
+
+Theorem par_time_closed_form : forall c0 ms (pre : bool) evs,
+  shape c0 (List.length ms) ->
+  perm_b (rel_order evs) (List.length ms) = true ->
+  npar evs + (if pre then 1 else 0) = 1 ->
+  time_spec c0 ms evs (q_of c0 ms pre evs) (run_w ms (start_w c0 ms pre) 1 evs).
+Proof.
+  intros c0 ms pre evs SH PB NP. pose proof (shape_not_done _ _ SH) as D.
+  destruct (guard_cases c0 ms pre evs SH PB NP) as [-> P Q0|A B -> -> P Q QE|A h B -> -> P Q SG QE].
+  - (* the call is made with a cancelled context *)
+    rewrite Q0. set (tau := ret_step ms evs 0).
+    assert (P' : is_perm ([] ++ rel_order evs) (List.length ms)) by exact P.
+    assert (GT : forall i, In i (rel_order evs) -> 0 < tpos (map ERel [] ++ evs) i).
+    { intros i Hi. unfold tpos. simpl. pose proof (tpos_from_ge i evs 1 Hi). lia. }
+    destruct (start_pre c0 ms) as [I0 L0].
+    assert (N0 : NA ms (start_w c0 ms true)).
+    { intros j Hj. rewrite L0 in Hj. apply andb_prop in Hj as [_ Hj]. apply negb_true_iff in Hj. exact Hj. }
+    assert (R0 : RInv tau c0 (List.length ms) (start_w c0 ms true)
+                   (map cancel_resp (filter (aware_at ms) (members ms))) 0).
+    { apply start_pre_R; auto. intros j Hj AW.
+      apply (tau_flushed ms [] evs 0 P' GT j Hj); auto. }
+    pose proof (phase2_R tau c0 ms D evs _ 1 _ 0 N0 R0 (Nat.lt_0_1) (perm_nodup _ _ P)) as R2.
+    rewrite (off_eq_pre ms evs _ P L0) in R2.
+    rewrite <- (seq_at_OFF ms [] evs 0 P' (Nat.le_refl 0) GT) in R2. simpl app in R2.
+    destruct (run_pre ms c0 evs P) as [_ AD]. cbv zeta in AD.
+    destruct (RInv_final c0 ms evs 0 _ _ (R2 ltac:(
+      intros p i Hp Li; rewrite L0 in Li; apply andb_prop in Li as [_ Li]; apply negb_true_iff in Li;
+      apply (tau_X ms [] evs 0 P' (Nat.le_refl 0) p i Hp Li))) AD) as [t [RT [_ M]]].
+    exists t. split; [exact RT|split; [exact M|]].
+    intros _. rewrite (run_cancel_sticky ms evs _ 1 0 (start_pre_cancel c0 ms)). reflexivity.
+  - (* the parent cancellation comes first *)
+    rewrite QE. set (q := S (List.length A)). set (evs := map ERel A ++ EPar :: B).
+    set (tau := ret_step ms evs q).
+    pose proof (perm_nodup _ _ P) as ND.
+    assert (P' : is_perm (A ++ rel_order (EPar :: B)) (List.length ms)) by exact P.
+    assert (GT : forall i, In i (rel_order (EPar :: B)) -> q < tpos (map ERel A ++ EPar :: B) i).
+    { intros i Hi. pose proof (tpos_after_par ms A B i P Hi). unfold q. lia. }
+    assert (LEq : List.length A <= q) by (unfold q; lia).
+    destruct (start_P1 c0 ms D) as [P0 L0].
+    assert (LV0 : forall i, In i A -> lv (start_w c0 ms false) i = true).
+    { intros i Hi. rewrite L0. apply Nat.ltb_lt. eapply perm_lt; [exact P|apply in_or_app; auto]. }
+    assert (NDA : NoDup A) by (eapply nodup_app_l; exact ND).
+    destruct (phase1 ms A _ 1 c0 P0 NDA LV0 Q) as [P1' L1].
+    destruct (phase1_RC tau c0 ms D A _ 1 c0 [] 0 P0 (start_R tau c0 ms D) (start_CR c0 ms D)
+                Nat.lt_0_1 NDA LV0 Q) as [R1 C1].
+    { intros p i Hp. apply (tau_A ms A (EPar :: B) q P' LEq p i Hp). }
+    unfold evs at 2. rewrite run_w_app. simpl run_w. rewrite map_length.
+    set (w1 := run_w ms (start_w c0 ms false) 1 (map ERel A)) in *.
+    simpl app in R1. replace (Nat.pred (1 + List.length A)) with (List.length A) in R1 by lia.
+    destruct (pcancel_P1 ms w1 (1 + List.length A) _ P1') as [I2 L2].
+    assert (R2 : RInv tau c0 (List.length ms) (pcancel ms w1 (1 + List.length A))
+                   (map (own_resp ms) A ++ foff ms w1 (members ms)) (1 + List.length A)).
+    { apply (pcancel_P1_R tau c0 ms D w1 _ _ _ (List.length A) P1' R1); [lia|].
+      intros j Lj AW. rewrite L1, L0 in Lj. apply andb_prop in Lj as [Lj NI].
+      apply Nat.ltb_lt in Lj. apply negb_true_iff in NI.
+      apply (tau_flushed ms A (EPar :: B) q P' GT j Lj NI AW). }
+    set (w2 := pcancel ms w1 (1 + List.length A)) in *.
+    assert (N2 : NA ms w2).
+    { intros j Hj. rewrite L2 in Hj. apply andb_prop in Hj as [_ Hj]. apply negb_true_iff in Hj. exact Hj. }
+    pose proof (phase2_R tau c0 ms D B w2 (S (1 + List.length A)) _ _ N2 R2
+                  (Nat.lt_succ_diag_r _) (nodup_app_r _ _ ND)) as R3.
+    rewrite (off_eq_par ms A B w1 w2 P) in R3; [|intros j; rewrite L1, L0; reflexivity|exact L2].
+    change (OFF ms A B) with (OFF ms A (EPar :: B)) in R3.
+    rewrite <- (seq_at_OFF ms A (EPar :: B) q P' LEq GT) in R3.
+    destruct (run_parent_first ms c0 A B D P Q) as [_ AD]. cbv zeta in AD.
+    rewrite run_w_app in AD. simpl run_w in AD. rewrite map_length in AD. fold w1 in AD. fold w2 in AD.
+    destruct (RInv_final c0 ms evs q _ _ (R3 ltac:(
+      intros p i Hp Li; rewrite L2 in Li; apply andb_prop in Li as [_ Li]; apply negb_true_iff in Li;
+      unfold tau, evs; rewrite (tau_X ms A (EPar :: B) q P' LEq (S p) i Hp Li); lia)) AD) as [t [RT [_ M]]].
+    exists t. split; [exact RT|split; [exact M|]].
+    intros NZ. destruct (classic_dead w1) as [A1|[i Li]].
+    + (* every member returned before the parent cancellation *)
+      destruct R1 as [_ [RB _]]. destruct (RB A1) as [_ [t1 [RT1 [LT1 _]]]].
+      destruct C1 as [_ CD]. specialize (CD A1). rewrite RT1 in CD.
+      assert (E2 : w2 = w1) by (unfold w2, pcancel; rewrite CD; reflexivity).
+      assert (E3 : run_w ms w2 (S (1 + List.length A)) B = w1)
+        by (rewrite E2; apply (run_dead_id ms B w1 _ t1 A1 CD)).
+      change (w_cancel (run_w ms w2 (S (1 + List.length A)) B) = Some (Nat.min q t)).
+      change (w_ret (run_w ms w2 (S (1 + List.length A)) B) = Some t) in RT.
+      rewrite E3 in *. rewrite RT1 in RT. inversion RT; subst t1. rewrite CD. f_equal. unfold q. lia.
+    + destruct (P1_live w1 _ i P1' Li) as [_ [K1 _]].
+      pose proof (RInv_alive_ret_none _ _ _ _ _ _ _ i D R1 P1' Li) as RN.
+      assert (K2 : w_cancel w2 = Some (1 + List.length A)) by (apply pcancel_sets; exact K1).
+      rewrite (run_cancel_sticky ms B w2 _ _ K2). f_equal.
+      assert (LB : 1 + List.length A <= t).
+      { apply (ret_lower ms (EPar :: B) w1 (1 + List.length A) t RN). simpl. exact RT. }
+      unfold q. lia.
+  - (* the call's own decision comes first *)
+    rewrite QE. set (q := S (List.length A)).
+    rewrite <- events_snoc. set (evs := map ERel (A ++ [h]) ++ B).
+    set (tau := ret_step ms evs q).
+    pose proof (perm_nodup _ _ P) as ND.
+    assert (LA : List.length (A ++ [h]) = q) by (rewrite app_length; simpl; unfold q; lia).
+    assert (GT : forall i, In i (rel_order B) -> q < tpos (map ERel (A ++ [h]) ++ B) i).
+    { intros i Hi. pose proof (tpos_after_own (A ++ [h]) B i ND Hi). lia. }
+    assert (LEq : List.length (A ++ [h]) <= q) by lia.
+    destruct (start_P1 c0 ms D) as [P0 L0].
+    assert (NDA' : NoDup (A ++ [h])) by (eapply nodup_app_l; exact ND).
+    assert (NDA : NoDup A) by (eapply nodup_app_l; exact NDA').
+    assert (LV0 : forall i, In i A -> lv (start_w c0 ms false) i = true).
+    { intros i Hi. rewrite L0. apply Nat.ltb_lt. eapply perm_lt; [exact P|].
+      apply in_or_app; left; apply in_or_app; auto. }
+    destruct (phase1 ms A _ 1 c0 P0 NDA LV0 Q) as [P1' L1].
+    destruct (phase1_RC tau c0 ms D A _ 1 c0 [] 0 P0 (start_R tau c0 ms D) (start_CR c0 ms D)
+                Nat.lt_0_1 NDA LV0 Q) as [R1 C1].
+    { intros p i Hp. apply (tau_A ms (A ++ [h]) B q P LEq p i).
+      rewrite nth_error_app1; auto. apply nth_error_Some. congruence. }
+    unfold evs at 2. rewrite events_snoc, run_w_app. simpl run_w. rewrite map_length.
+    set (w1 := run_w ms (start_w c0 ms false) 1 (map ERel A)) in *.
+    simpl app in R1. replace (Nat.pred (1 + List.length A)) with (List.length A) in R1 by lia.
+    assert (Lh : lv w1 h = true).
+    { rewrite L1, L0.
+      assert (h < List.length ms) by (eapply perm_lt; [exact P|]; apply in_or_app; left; apply in_or_app; right; left; auto).
+      apply Nat.ltb_lt in H. rewrite H. simpl.
+      apply negb_true_iff. apply inb_false. intros I.
+      eapply (nodup_app_disj A [h] h); eauto. left; auto. }
+    assert (Th : tau h = 1 + List.length A).
+    { apply (tau_A ms (A ++ [h]) B q P LEq (List.length A) h).
+      rewrite nth_error_app2 by lia. rewrite Nat.sub_diag. reflexivity. }
+    destruct (release_sig ms w1 (1 + List.length A) h _ P1' Lh SG) as [I2 L2].
+    assert (R2 : RInv tau c0 (List.length ms) (release ms w1 (1 + List.length A) h)
+                   (map (own_resp ms) A ++ own_resp ms h ::
+                      map cancel_resp (filter (fun j => lv w1 j && negb (Nat.eqb j h) && aware_at ms j) (members ms)))
+                   (1 + List.length A)).
+    { apply (release_sig_R tau c0 ms D w1 _ h _ _ (List.length A) P1' Lh SG R1); [lia|exact Th|].
+      intros j Lj AW. destruct (Nat.eqb_spec j h) as [->|NE]; [exact Th|].
+      rewrite L1, L0 in Lj. apply andb_prop in Lj as [Lj NI].
+      apply Nat.ltb_lt in Lj. apply negb_true_iff in NI.
+      replace (1 + List.length A) with q by (unfold q; lia).
+      apply (tau_flushed ms (A ++ [h]) B q P GT j Lj); auto.
+      rewrite inb_snoc, NI. simpl. apply Nat.eqb_neq. exact NE. }
+    set (w2 := release ms w1 (1 + List.length A) h) in *.
+    assert (N2 : NA ms w2).
+    { intros j Hj. rewrite L2 in Hj. apply andb_prop in Hj as [_ Hj]. apply negb_true_iff in Hj. exact Hj. }
+    pose proof (phase2_R tau c0 ms D B w2 (S (1 + List.length A)) _ _ N2 R2
+                  (Nat.lt_succ_diag_r _) (nodup_app_r _ _ ND)) as R3.
+    rewrite (off_eq_own ms A h B w1 w2 P) in R3; [|intros j; rewrite L1, L0; reflexivity|exact L2].
+    rewrite <- (seq_at_OFF ms (A ++ [h]) B q P LEq GT) in R3.
+    destruct (run_own_first ms c0 A h B D P Q SG) as [_ AD]. cbv zeta in AD.
+    rewrite run_w_app in AD. simpl run_w in AD. rewrite map_length in AD. fold w1 in AD. fold w2 in AD.
+    destruct (RInv_final c0 ms evs q _ _ (R3 ltac:(
+      intros p i Hp Li; rewrite L2 in Li; apply andb_prop in Li as [_ Li]; apply negb_true_iff in Li;
+      unfold tau, evs; rewrite (tau_X ms (A ++ [h]) B q P LEq p i Hp Li); lia)) AD) as [t [RT [_ M]]].
+    exists t. split; [exact RT|split; [exact M|]].
+    intros NZ. destruct (P1_live w1 _ h P1' Lh) as [_ [K1 _]].
+    pose proof (RInv_alive_ret_none _ _ _ _ _ _ _ h D R1 P1' Lh) as RN.
+    assert (K2 : w_cancel w2 = Some (1 + List.length A)) by (eapply release_sig_sets; eauto).
+    rewrite (run_cancel_sticky ms B w2 _ _ K2). f_equal.
+    assert (LB : 1 + List.length A <= t).
+    { apply (ret_lower ms (ERel h :: B) w1 (1 + List.length A) t RN). simpl. exact RT. }
+    unfold q. lia.
 Qed.
